@@ -102,6 +102,7 @@ type vWorld struct {
 	log          []vEv
 	failStart    map[string]bool
 	failStop     map[string]bool
+	failCreate   map[string]bool // exporter keys whose factory returns an error
 	// failure injection by creation order (collector harness: the labels are not known before Run): the idx-th created
 	// component of the kind gets a failing Start (or Shutdown); what it landed on is recorded in injStart / injStop
 	failRules         []vFailRule
@@ -114,7 +115,7 @@ type vWorld struct {
 func newVWorld() *vWorld {
 	return &vWorld{creates: map[string]int{}, procTok: map[int]string{}, extDeps: map[int][]int{},
 		sharedMap: sharedcomponent.NewMap[int, *vInner](), failStart: map[string]bool{}, failStop: map[string]bool{},
-		failNotify: map[string]bool{}, failReady: map[string]bool{}}
+		failNotify: map[string]bool{}, failReady: map[string]bool{}, failCreate: map[string]bool{}}
 }
 
 type vFailRule struct {
@@ -330,14 +331,17 @@ func (w *vWorld) mkRecv(id component.ID, sig int) (component.Component, error) {
 	return &vNode{w: w, kind: 'r', label: key}, nil
 }
 
-func (w *vWorld) mkExp(id component.ID, sig int) vAll {
+func (w *vWorld) mkExp(id component.ID, sig int) (vAll, error) {
 	key := fmt.Sprintf("e%d:%d", vIDNum(id), sig)
+	if w.failCreate[key] { // a factory that fails inside graph.Build (buildComponents), after other components were created
+		return nil, fmt.Errorf("verif create failure %s", key)
+	}
 	w.created('e', key)
 	w.creates[key]++
 	if vIDNum(id) == w.sharedExpID {
-		return w.sharedOuter(1, vIDNum(id), key)
+		return w.sharedOuter(1, vIDNum(id), key), nil
 	}
-	return &vNode{w: w, kind: 'e', label: key}
+	return &vNode{w: w, kind: 'e', label: key}, nil
 }
 
 func (w *vWorld) mkProc(id component.ID) *vNode {
@@ -409,16 +413,16 @@ func (w *vWorld) procFactory(t component.Type) processor.Factory {
 func (w *vWorld) expFactory(t component.Type) exporter.Factory {
 	return xexporter.NewFactory(t, vDefaultCfg,
 		xexporter.WithTraces(func(_ context.Context, s exporter.Settings, _ component.Config) (exporter.Traces, error) {
-			return w.mkExp(s.ID, 0), nil
+			return w.mkExp(s.ID, 0)
 		}, component.StabilityLevelStable),
 		xexporter.WithMetrics(func(_ context.Context, s exporter.Settings, _ component.Config) (exporter.Metrics, error) {
-			return w.mkExp(s.ID, 1), nil
+			return w.mkExp(s.ID, 1)
 		}, component.StabilityLevelStable),
 		xexporter.WithLogs(func(_ context.Context, s exporter.Settings, _ component.Config) (exporter.Logs, error) {
-			return w.mkExp(s.ID, 2), nil
+			return w.mkExp(s.ID, 2)
 		}, component.StabilityLevelStable),
 		xexporter.WithProfiles(func(_ context.Context, s exporter.Settings, _ component.Config) (xexporter.Profiles, error) {
-			return w.mkExp(s.ID, 3), nil
+			return w.mkExp(s.ID, 3)
 		}, component.StabilityLevelStable))
 }
 
